@@ -45,6 +45,7 @@ def coverage(prop, executed, rejected, tier):
         "faults_armed_fired": {k: int(v) for k, v in sorted(total.items()) if k.startswith("fault:")},
         "engine_calls": int(total.get("engine_calls", 0)),
         "engine_natural_failures": int(total.get("engine_failures", 0)),
+        "engine_refused_zero_order_bond": int(total.get("engine_refused_zero_order_bond", 0)),
         "embeds_checked": int(total.get("embeds_ok", 0)),
         "bonded_distances_checked_real_engine": int(total.get("bonded_distances_checked", 0)),
         "beads_checked": int(total.get("beads_checked", 0)),
